@@ -118,22 +118,22 @@ type World struct {
 	nextIno uint64
 	tick    int64
 
-	Log    []Op
-	Frozen bool // killed: nothing has effect any more
-	Killed bool
-	ExitCode   int
-	Exited     bool
+	Log      []Op
+	Frozen   bool // killed: nothing has effect any more
+	Killed   bool
+	ExitCode int
+	Exited   bool
 
-	Stdout []byte
-	Stderr []byte
-	nextH  int
+	Stdout   []byte
+	Stderr   []byte
+	nextH    int
 	FiredSeq []int
 	// OutEvents records the order of stream writes: (seq, fd, n)
-	stdinPos   int
-	stdinErr   syscall.Errno
-	stdinEOF   bool
-	faultAt    map[int]Fault
-	rng        *PRNG
+	stdinPos      int
+	stdinErr      syscall.Errno
+	stdinEOF      bool
+	faultAt       map[int]Fault
+	rng           *PRNG
 	InvariantHook func(w *World, op *Op) // called after every op (harness invariants)
 }
 
@@ -675,9 +675,9 @@ func (w *World) OpenFile(name string, flag int, perm fs.FileMode) (*Handle, sysc
 	return &Handle{id: w.nextH, w: w, Name: name, abs: abs, node: n, flag: flag}, 0
 }
 
-func (h *Handle) World() *World { return h.w }
-func (h *Handle) Node() *Inode  { return h.node }
-func (h *Handle) Abs() string   { return h.abs }
+func (h *Handle) World() *World  { return h.w }
+func (h *Handle) Node() *Inode   { return h.node }
+func (h *Handle) Abs() string    { return h.abs }
 func (h *Handle) IsStream() bool { return h.stream != 0 }
 
 func (w *World) chunk(knob int, want int) int {
